@@ -155,3 +155,14 @@ Theorem C06_stopping_input_is_last : forall env document toks p stack st pre f p
             ++ document f (accepted_object stack st)).
 Proof. exact stopping_input_is_last. Qed.
 Print Assumptions C06_stopping_input_is_last.
+
+(* the generated lexer / parser / listener modules and the error listeners are (up to layout, comments,
+   docstrings) the code the model was validated against; every context class dispatches to the listener
+   method of its rule; the aggregator overrides exactly the four enter callbacks agg_step composes *)
+Theorem C06_parser_code_unchanged :
+  parser_package_digests = base_parser_package_digests
+  /\ parser_dispatch = base_parser_dispatch
+  /\ aggregator_listener_methods
+     = [s"enterDocumented_command"; s"enterCommand_invocation"; s"enterDocumented_module"; s"enterBracket_doccomment"].
+Proof. exact (conj parser_package_unchanged (conj parser_dispatch_unchanged aggregator_listener_methods_unchanged)). Qed.
+Print Assumptions C06_parser_code_unchanged.
